@@ -120,6 +120,12 @@ def visitN (s : Skel) (stop : Int) : Nat → Int → List Int
   | 0, _ => []
   | n + 1, i => if s.cond i stop then i :: visitN s stop n (s.next i) else []
 
+/-- the user-visible loop variable after the loop (`ForRange.init` assigns it from the index register — the
+    start value — *before* the first comparison; `begin_body` assigns it again at the start of every body
+    execution).  `none`: the loop has not ended within `fuel` comparisons. -/
+def varAfter (s : Skel) (stop : Int) (fuel : Nat) (start : Int) : Option Int :=
+  (loop s stop fuel start).map (fun vs => vs.getLastD start)
+
 /-- `builder.assign(index_reg, start_reg)`: coercion of the start value into the index type;
     `none` = the coercion raises (`int too large to convert to i64` …) -/
 def coerceStart (idx : RTy) (start : Int) : Option Int := if idx.fits start then some start else none
@@ -138,6 +144,12 @@ def rangeFrom : Nat → Int → Int → List Int
 
 /-- `list(range(start, stop, step))` -/
 def pyRange (start stop step : Int) : List Int := rangeFrom (rangeLen start stop step) start step
+
+/-- Python: the loop variable keeps its previous binding (`before`; `none` = unbound) when the range is empty -/
+def pyVarAfter (start stop step : Int) (before : Option Int) : Option Int :=
+  match (pyRange start stop step).getLast? with
+  | some v => some v
+  | none => before
 
 /-- every addition the loop performs is exact: each visited value plus the step is representable -/
 def NoStepOverflow (t : RTy) (start stop step : Int) : Prop :=
